@@ -1844,6 +1844,20 @@ func (f *Flow) KnownNonNil(v types.Object) bool {
 	return false
 }
 
+// KnownAtom: during the evaluation of a query's Target, the truth of the atomic condition e as established by the
+// branch edges taken on the path that reached the point (known == false when the path did not decide it).
+func (f *Flow) KnownAtom(e ast.Expr) (val bool, known bool) {
+	if f.curFacts == nil {
+		return false, false
+	}
+	k, t := canonAtom(atomFact{E: e, T: true})
+	v, has := f.curFacts[k]
+	if !has {
+		return false, false
+	}
+	return v == t, true
+}
+
 // rawBetween: in the control-flow graph (conditions ignored) the node at mid lies on a path from the node at from to
 // the node at to that does not pass `from` again (a call in the other arm of an if/else does not lie between a
 // definition and its use). Unlocated positions count as "between".
